@@ -766,6 +766,59 @@ Fixpoint eval (ctx : list (text * value)) (e : expr) : res :=
   end.
 
 (* ------------------------------------------------------------------------------------------------ *)
+(* the same evaluator with an EXPONENT BUDGET: every value that flows from one node to the next (literal, context
+   value, container, lookup key, parameter, operand, result) must denote only numbers whose decimal exponent is
+   within +-B — as a number, as a numeric text, through an object default, or inside an array/object.  [None] =
+   the budget was exceeded somewhere.  Used to state where the one remaining panic class can come from. *)
+
+Fixpoint vbound (B : Z) (v : value) : bool :=
+  match v with
+  | VNum d => (Z.abs (dexp d) <=? B)%Z
+  | VText s => match parse_number s with Some d => (Z.abs (dexp d) <=? B)%Z | None => true end
+  | VArray items => (fix all (l : list value) : bool := match l with [] => true | x :: r => vbound B x && all r end) items
+  | VObject def props =>
+      (match def with Some d => vbound B d | None => true end)
+      && (fix all (l : list (text * value)) : bool :=
+            match l with [] => true | (_, x) :: r => vbound B x && all r end) props
+  | _ => true
+  end.
+
+Definition within (B : Z) (r : res) : option res :=
+  match r with
+  | Ret v => if vbound B v then Some r else None
+  | other => Some other
+  end.
+
+Definition bind_b (B : Z) (r : option res) (k : value -> option res) : option res :=
+  match r with
+  | None => None
+  | Some (Ret v) => k v
+  | Some other => Some other
+  end.
+
+Fixpoint eval_b (B : Z) (ctx : list (text * value)) (e : expr) : option res :=
+  match e with
+  | ELit v => within B (Ret v)
+  | ERef name => within B (match scope_get ctx name with Some v => Ret v | None => Ret VErr end)
+  | EDot c l => bind_b B (eval_b B ctx c) (fun cv => within B (if is_err cv then Ret cv else resolve_lookup cv (VText l) true))
+  | EIdx c l => bind_b B (eval_b B ctx c) (fun cv => if is_err cv then Some (Ret cv) else
+                bind_b B (eval_b B ctx l) (fun lv => within B (if is_err lv then Ret lv else resolve_lookup cv lv false)))
+  | ECall fn ps =>
+      bind_b B (eval_b B ctx fn) (fun fv => if is_err fv then Some (Ret fv) else
+      match fv with
+      | VFunc f _ =>
+          (fix eval_params (l : list expr) (acc : list value) : option res :=
+             match l with
+             | [] => within B (call_function f (rev acc))
+             | p :: r => bind_b B (eval_b B ctx p) (fun pv => eval_params r (pv :: acc))
+             end) ps []
+      | _ => Some (Ret VErr)
+      end)
+  | ENeg a => bind_b B (eval_b B ctx a) (fun v => within B (eval_neg v))
+  | EBin op a b => bind_b B (eval_b B ctx a) (fun av => bind_b B (eval_b B ctx b) (fun bv => within B (eval_binop op av bv)))
+  end.
+
+(* ------------------------------------------------------------------------------------------------ *)
 (* abstract work: cells touched by the loops that a NUMERIC argument drives *)
 
 Definition value_size (v : value) : N :=
